@@ -233,7 +233,7 @@ def main():
         sys.exit(do_replay(a.pid, spec, a.replay))
     t0 = time.time()
     fn_reports, lemmas, inlined = ([], [], []) if a.no_proof else proof_layer(a.pid, spec, a.tier)
-    bounded = None if a.no_bounded else bounded_layer(a.pid, spec, a.tier, seed, 1500 if a.tier == 'thorough' else 240)
+    bounded = None if a.no_bounded else bounded_layer(a.pid, spec, a.tier, seed, 2400 if a.tier == 'thorough' else 900)
     known = load_known(a.pid)
     os.makedirs(os.path.join(HERE, 'replays', a.pid), exist_ok=True)
     violations, undecided, drift, machinery = [], [], [], []
